@@ -119,7 +119,11 @@ class Check:
         self.seed = seed
         self.t0 = time.time()
         self.rng = random.Random(f"{pid}:{seed}")
-        self.build = os.path.join(BUILD_ROOT, pid)
+        # a run against a scratch copy of the repo (mutation trial) keeps its build, evidence and
+        # replays away from the real ones
+        self.scratch = os.path.realpath(REPO) != "/repo"
+        self.out_root = os.path.join(BUILD_ROOT, f"trial_{os.getpid()}") if self.scratch else VERIF
+        self.build = os.path.join(BUILD_ROOT, pid + (f"_trial_{os.getpid()}" if self.scratch else ""))
         shutil.rmtree(self.build, ignore_errors=True)
         os.makedirs(self.build, exist_ok=True)
         self.obligations = []  # dict(name, kind, ok, detail)
@@ -270,7 +274,7 @@ class Check:
         n_ok = sum(1 for o in self.obligations if o["ok"])
         broken = [o for o in self.obligations if not o["ok"]]
         viol_lines = []
-        replay_dir = os.path.join(VERIF, "replays", self.pid)
+        replay_dir = os.path.join(self.out_root, "replays", self.pid)
         if self.failures or broken:
             os.makedirs(replay_dir, exist_ok=True)
         # one replay per semantic key (the smallest case), at most 8 keys
@@ -329,8 +333,8 @@ class Check:
             "violations": len(viol_lines),
             "failing_cases_total": n_fail_total,
         }
-        os.makedirs(os.path.join(VERIF, "evidence"), exist_ok=True)
-        with open(os.path.join(VERIF, "evidence", f"{self.pid}.json"), "w") as fh:
+        os.makedirs(os.path.join(self.out_root, "evidence"), exist_ok=True)
+        with open(os.path.join(self.out_root, "evidence", f"{self.pid}.json"), "w") as fh:
             json.dump(ev, fh, indent=1, default=str)
         for h in self.known_hits:
             print(f"KNOWN-FINDING: property={self.pid} {h['what']}")
